@@ -861,6 +861,9 @@ func run(c *Ctx) {
 		}
 	}
 	subModels(c)
+	if c.Replay == "" {
+		secrecy(c)
+	}
 }
 
 func truncate(s string, n int) string {
